@@ -190,6 +190,9 @@ func (eng *Engine) VerifyFunc(pkg *packages.Package, decl *ast.FuncDecl, c *Cont
 			fc.assume(st, env.evalBool(r.E))
 		}
 		for _, u := range c.Uses {
+			if usesResult(u.E) {
+				continue // instantiated at every normal exit, where the results exist (finishExit)
+			}
 			fc.useLemma(st, u, scopePos)
 		}
 		if !lockSweepOnly {
@@ -333,6 +336,14 @@ func (fc *FnCtx) finishExit(st *State, panicking bool, ord int, scopePos token.P
 			env.bound["result"] = results[i]
 		}
 	}
+	// function-level `use` lines that name a result are lemma instances over the exit state
+	for _, u := range c.Uses {
+		if usesResult(u.E) {
+			fc.useBound = env.bound
+			fc.useLemma(ns, u, fc.decl.Body.Rbrace)
+			fc.useBound = nil
+		}
+	}
 	for i, e := range c.Ensures {
 		label := e.Label
 		if label == "" {
@@ -393,6 +404,25 @@ func (fc *FnCtx) checkLocksReleased(st *State, scopePos token.Pos) {
 	fc.assertNamed(st, and(eqs...), "lock-balance", "", "every mutex this function locks or unlocks is in the same state at exit as at entry (no lost unlock)", fc.decl.Pos())
 }
 
+// usesResult: the expression names a result of the function (result, result0, result1, ...).
+func usesResult(e *SExpr) bool {
+	if e == nil {
+		return false
+	}
+	if e.Kind == SIdent && (e.Name == "result" || (strings.HasPrefix(e.Name, "result") && len(e.Name) > 6 && e.Name[6] >= '0' && e.Name[6] <= '9')) {
+		return true
+	}
+	if e.Fun != nil && usesResult(e.Fun) {
+		return true
+	}
+	for _, a := range e.Args {
+		if usesResult(a) {
+			return true
+		}
+	}
+	return false
+}
+
 // useLemma instantiates lemma(args): assumes requires ==> ensures for these arguments.
 func (fc *FnCtx) useLemma(st *State, u *Clause, scopePos token.Pos) {
 	e := u.E
@@ -414,6 +444,9 @@ func (fc *FnCtx) useLemma(st *State, u *Clause, scopePos token.Pos) {
 	fc.curOnly = u.Only
 	defer func() { fc.curOnly = "" }()
 	env := fc.newSpecEnv(st, fc.oldState(), scopePos)
+	for k, v := range fc.useBound {
+		env.bound[k] = v
+	}
 	if len(e.Args) != len(lm.Params) {
 		fc.fail(token.NoPos, "use %s: wrong number of arguments", lm.Name)
 	}
